@@ -17,7 +17,7 @@
                       ready --empty ∧ ¬stop_--> waiting --notified--> ready.
   Clients run scripts: `enq i` (start() of a schedule operation = `enqueue`), `stop` (loop.stop()),
   `tokStop` (request_stop on the stop source whose token the receivers expose), `waitAll` (join the
-  other clients), `dtor` (~single_thread_context).  Every call is three steps: observable begin,
+  other clients), `waitRan i` (block until item i has completed — like sync_wait), `dtor` (~single_thread_context).  Every call is three steps: observable begin,
   the critical section, observable end — so the model admits exactly the real-time orders the
   real code can produce.
 
@@ -30,7 +30,7 @@ namespace Unifex.Proto.EventLoop
 open Unifex.Core
 
 inductive Op
-  | enq (i : Nat) | stop | tokStop | waitAll | dtor
+  | enq (i : Nat) | stop | tokStop | waitAll | waitRan (i : Nat) | dtor
   deriving DecidableEq, Repr
 
 structure Config where
@@ -147,6 +147,7 @@ def clientStep (cfg : Config) (s : St) (t : Nat) : Option (Lbl × St) :=
     | .tokStop, 1 => some (tau t, goto (critTok s) 2)
     | .tokStop, _ => some (ev t "tokstop.end", fin (endTok s))
     | .waitAll, _ => if othersDone cfg s t then some (tau t, fin s) else none
+    | .waitRan i, _ => if s.ran.contains i then some (tau t, fin s) else none
     | .dtor, 0 => some (ev t "dtor.begin", goto s 1)
     | .dtor, 1 => some (tau t, goto (critStop s) 2)
     | .dtor, _ => if s.phase == .exited then some (ev t "dtor.end", fin s) else none
@@ -240,8 +241,13 @@ def cfgLoopTok : Config := ⟨0, true, [[], [.enq 0, .enq 1], [.tokStop], [.wait
 def cfgStc : Config := ⟨1, false, [[.enq 0, .waitAll, .dtor], [], [.enq 1, .enq 2]], true⟩
 def cfgStc2 : Config := ⟨1, false, [[.waitAll, .dtor], [], [.enq 0], [.enq 1]], true⟩
 
+/-- the client waits for each item's completion before it goes on (a lost wake-up is a deadlock) -/
+def cfgLoopWait : Config := ⟨0, true, [[], [.enq 0, .waitRan 0, .enq 1, .waitRan 1, .stop]], true⟩
+def cfgLoopWait2 : Config := ⟨0, true, [[], [.enq 0, .waitRan 0], [.enq 1, .waitRan 1], [.waitAll, .stop]], true⟩
+def cfgStcWait : Config := ⟨1, false, [[.enq 0, .waitRan 0, .enq 1, .waitRan 1, .dtor], []], true⟩
+
 def configs : List (String × Config) :=
-  [("loop_1x2", cfgLoop1x2), ("loop_2x1", cfgLoop2x1), ("loop_2x2", cfgLoop2x2), ("loop_3x1", cfgLoop3x1),
+  [("loop_wait", cfgLoopWait), ("loop_wait2", cfgLoopWait2), ("stc_wait", cfgStcWait), ("loop_1x2", cfgLoop1x2), ("loop_2x1", cfgLoop2x1), ("loop_2x2", cfgLoop2x2), ("loop_3x1", cfgLoop3x1),
    ("loop_1x3", cfgLoop1x3), ("loop_stop_race", cfgLoopStopRace), ("loop_stop_race2", cfgLoopStopRace2),
    ("loop_tok", cfgLoopTok), ("stc", cfgStc), ("stc2", cfgStc2)]
 
